@@ -160,6 +160,18 @@ class HandlerPrims:
                 p2 = path.copy()
                 p2.events.append(("mem_fault", "read", "bytes", args[1], site))
                 outs.append((ERR(("memerr", args[1])), p2))
+            if getattr(self, "normalize_le", True) and is_int(args[2]) and args[2][1] in (1, 2, 4, 8, 16):
+                # a whole little-endian integer fetched as bytes: the same load as mem_read_N, handed out byte by byte
+                nb = args[2][1] * 8
+                ev.append(("mem_read", nb, args[1], site))
+                val = W(("mem", nb, args[1], mv), 128 if nb == 128 else 64)
+                if nb < 64:
+                    path.maxbits[val] = nb
+                    path.maxbits[val[1]] = nb
+                wv = 128 if nb == 128 else 64
+                bs = tuple(I.cast(I.binop(path, "Shr", val, ("int", 8 * i, 32), wv) if i else val, wv, False, 8)
+                           for i in range(nb // 8))
+                return [(OK(("agg", "array", None, bs)), path)] + outs
             ev.append(("mem_read", "bytes", args[1], args[2], site))
             return [(OK(W(("membytes", args[1], args[2], mv), 64)), path)] + outs
         if kind == "mem_write_bytes":
